@@ -1407,7 +1407,7 @@ std::vector<Sub> vh_subs() {
     // were detected when the table was created (dispatch thresholds on m, log2bound, log2overhead included)
     Sub s;
     s.name = "table_masks";
-    s.fields = {{"logm", 0, 12}, {"op", 0, 8}, {"log2bound", 0, 64}, {"divexp", -4, 40}, {"ovh", 0, 48}, {"seed", 0, INT64_MAX - 1}};
+    s.fields = {{"logm", 0, 12}, {"op", 0, 11}, {"log2bound", 0, 64}, {"divexp", -4, 40}, {"ovh", 0, 48}, {"seed", 0, INT64_MAX - 1}};
     s.run = [](const Vals& v, Ctx& c) {
       const uint64_t m = 1ull << v[0];
       const int op = (int)v[1];
@@ -1416,7 +1416,8 @@ std::vector<Sub> vh_subs() {
       const uint32_t ovh = (uint32_t)v[4];
       static const char* names[] = {"reim_to_znx64", "reim_from_znx64", "reim_to_tnx", "cplx_from_znx32", "cplx_from_tnx32", "cplx_to_tnx32",
                                     "reim_to_znx64_simple(bound<=50 then bound>50)", "znx_small_single_product(monomials, |result| in [2^50,2^52))",
-                                    "svp+idft(monomials, |result| in [2^50,2^52))"};
+                                    "svp+idft(monomials, |result| in [2^50,2^52))", "reim_fftvec_mul/addmul in place", "reim4_fftvec_mul/addmul in place",
+                                    "cplx_fftvec_mul/addmul in place"};
       Rng r((uint64_t)v[5]);
       std::vector<double> xd(2 * m);
       std::vector<int64_t> xi(2 * m);
@@ -1506,6 +1507,35 @@ std::vector<Sub> vh_subs() {
                 if (d > E + 0.5L)
                   return c.failf("%s N=%llu under CPU mask %u: %lld*X^%llu times %lld*X^%llu: coefficient %llu = %lld, exact %lld (|err| %.4Lg > E+1/2 = %.4Lg)", names[op], (unsigned long long)n,
                                  mask, (long long)c1, (unsigned long long)ia, (long long)c2, (unsigned long long)ib, (unsigned long long)q, (long long)res[q], (long long)(q == e ? ex : 0), d, E + 0.5L);
+              }
+            break;
+          }
+          case 9: case 10: case 11: {
+            // pointwise product / multiply-accumulate through the table API with the output aliased to an operand (the supported in-place
+            // forms r==a, r==b, r==a==b) on small integers: every product and sum is exact, so all four CPU configurations must agree
+            // bit for bit, also on the dimensions where the table falls back to the portable kernel
+            const int layout = op - 9;  // 0 reim, 1 reim4, 2 cplx
+            const uint64_t mm = layout == 1 && m < 4 ? 4 : m;
+            Rng r2((uint64_t)v[5] ^ 777);
+            std::vector<double> a0(2 * mm), b0(2 * mm), r0(2 * mm);
+            for (uint64_t q = 0; q < 2 * mm; ++q) { a0[q] = (double)r2.sbits(18); b0[q] = (double)r2.sbits(18); r0[q] = (double)r2.sbits(30); }
+            for (int addmul = 0; addmul < 2; ++addmul)
+              for (int alias = 0; alias < 4; ++alias) {
+                std::vector<double> A = a0, B = b0, R = r0;
+                double* rp = alias == 1 ? A.data() : alias >= 2 ? B.data() : R.data();
+                const double* ap = alias == 3 ? B.data() : A.data();
+                const double* bp = B.data();
+                if (layout == 0) {
+                  if (addmul) { auto* t = new_reim_fftvec_addmul_precomp((uint32_t)mm); reim_fftvec_addmul(t, rp, ap, bp); free(t); }
+                  else { auto* t = new_reim_fftvec_mul_precomp((uint32_t)mm); reim_fftvec_mul(t, rp, ap, bp); free(t); }
+                } else if (layout == 1) {
+                  if (addmul) { auto* t = new_reim4_fftvec_addmul_precomp((uint32_t)mm); reim4_fftvec_addmul(t, rp, ap, bp); free(t); }
+                  else { auto* t = new_reim4_fftvec_mul_precomp((uint32_t)mm); reim4_fftvec_mul(t, rp, ap, bp); free(t); }
+                } else {
+                  if (addmul) { auto* t = new_cplx_fftvec_addmul_precomp((uint32_t)mm); cplx_fftvec_addmul(t, rp, ap, bp); free(t); }
+                  else { auto* t = new_cplx_fftvec_mul_precomp((uint32_t)mm); cplx_fftvec_mul(t, rp, ap, bp); free(t); }
+                }
+                o.insert(o.end(), (uint8_t*)rp, (uint8_t*)(rp + 2 * mm));
               }
             break;
           }
